@@ -189,7 +189,8 @@ func vfSeedTarget(c *vfSCase) *vfdoubles.Target {
 	tg := vfdoubles.NewTarget()
 	tg.Lenient = true
 	for db, off := range c.init {
-		tg.Seed(db, "hset", c.cp, c.rid+"_runid", c.rid, c.rid+"_version", config.Version, c.rid+"_offset", strconv.FormatInt(off, 10))
+		// as checkpoint.SetCheckpoint writes it (end of a full sync / UpdateCheckpoint): with an mtime
+		tg.Seed(db, "hset", c.cp, c.rid+"_mtime", strconv.FormatInt(1700000000000000000+int64(db), 10), c.rid+"_runid", c.rid, c.rid+"_version", config.Version, c.rid+"_offset", strconv.FormatInt(off, 10))
 	}
 	return tg
 }
@@ -592,6 +593,7 @@ func vfGenCase(r *vfutil.Rand, idx int) *vfSCase {
 		}
 	}
 	n := r.Range(0, vfutil.Scale(30, 60))
+	stallAfter := map[int]bool{}
 	if r.Chance(3, 4) && c.sdb < 0 {
 		c.raw = append(c.raw, [][]byte{[]byte("SELECT"), []byte(strconv.Itoa(r.Intn(4)))})
 	}
@@ -603,7 +605,13 @@ func vfGenCase(r *vfutil.Rand, idx int) *vfSCase {
 			c.raw = append(c.raw, [][]byte{[]byte("select"), []byte(strconv.Itoa(r.Intn(4)))})
 		case 2, 3:
 			c.raw = append(c.raw, [][]byte{[]byte("MULTI")})
+			if r.Chance(1, 4) {
+				stallAfter[len(c.raw)] = true // the stream stalls right after this MULTI
+			}
 			for i := r.Intn(5); i > 0; i-- {
+				if r.Chance(1, 5) { // a transaction touching several databases
+					c.raw = append(c.raw, [][]byte{[]byte("SELECT"), []byte(strconv.Itoa(r.Intn(4)))})
+				}
 				c.raw = append(c.raw, data())
 			}
 			c.raw = append(c.raw, [][]byte{[]byte("EXEC")})
@@ -634,10 +642,19 @@ func vfGenCase(r *vfutil.Rand, idx int) *vfSCase {
 		if i == 0 && r.Chance(1, 2) {
 			gap = r.Range(0, 15) * 1000000
 		}
+		if stallAfter[i] { // previous write ended right after a MULTI: long idle
+			gap = r.Range(2, 40) * 1000000
+		}
 		t += gap + 1000
 		k := r.Range(1, 6)
 		if i+k > len(c.raw) {
 			k = len(c.raw) - i
+		}
+		for j := 1; j <= k; j++ {
+			if stallAfter[i+j] {
+				k = j
+				break
+			}
 		}
 		c.evs = append(c.evs, vfSEv{t: t, n: k})
 		i += k
